@@ -10,6 +10,7 @@ import PgVerif.Spec.Prec
 import PgVerif.Spec.LexRules
 import PgVerif.Model.Actions
 import PgVerif.Model.Recovery
+import PgVerif.Model.Cache
 import PgVerif.Generated.Source
 /-!
 `pgmodel`: line-protocol driver. One request per line (a command word followed
@@ -185,6 +186,32 @@ def rdActEnv : Rd ActEnv := do
   let ta := terms.toArray
   pure { prods := prods, termUser := fun t => match ta[t]? with | some x => x != 0 | none => false }
 
+def jsonStr (cs : List Nat) : String :=
+  "\"" ++ String.join (cs.map (fun c =>
+    if c == 34 then "\\\"" else if c == 92 then "\\\\" else
+    if c < 32 || c > 126 then "\\u" ++ (String.ofList (Nat.toDigits 16 c)).pushn '0' 0 |> fun h =>
+      "\\u" ++ String.ofList (List.replicate (4 - (Nat.toDigits 16 c).length) '0') ++ String.ofList (Nat.toDigits 16 c)
+    else String.singleton (Char.ofNat c))) ++ "\""
+
+/-- `json.dump(table_to_serializable(table), f, sort_keys=True)`. -/
+def pgcJson (T : Table) (ntNames tNames : List (List Nat)) : String :=
+  let symName : Sym → List Nat := fun s => match s with
+    | .nt k => ntNames.getD k []
+    | .t k => tNames.getD k []
+  let act : SerAction → String := fun a =>
+    "{\"action\": " ++ toString a.action ++
+    (match a.prodId with | some p => ", \"prod_id\": " ++ toString p | none => "") ++
+    (match a.stateId with | some s => ", \"state_id\": " ++ toString s | none => "") ++ "}"
+  let st : Nat → String := fun i =>
+    let cells := T.cells i
+    "{\"actions\": [" ++ ", ".intercalate (cells.map (fun c =>
+        "[" ++ jsonStr (tNames.getD c.1 []) ++ ", [" ++ ", ".intercalate (c.2.map (fun a => act (dumpAction a))) ++ "]]")) ++
+    "], \"finish_flags\": [" ++ ", ".intercalate ((T.finish i).map (fun b => if b then "true" else "false")) ++
+    "], \"gotos\": [" ++ ", ".intercalate ((T.gotoL i).map (fun g =>
+        "[" ++ jsonStr (ntNames.getD g.1 []) ++ ", " ++ toString g.2 ++ "]")) ++
+    "], \"state_id\": " ++ toString i ++ ", \"symbol\": " ++ jsonStr (symName (T.sym i)) ++ "}"
+  "[" ++ ", ".intercalate ((List.range T.n).map st) ++ "]"
+
 structure St where
   g : Grammar := default
   gg : GGrammar := default
@@ -192,6 +219,8 @@ structure St where
   inp : Option Input := none
   F : Forest := []
   env : ActEnv := { prods := [], termUser := fun _ => false }
+  ntNames : List (List Nat) := []
+  tNames : List (List Nat) := []
 
 def natList (l : List Nat) : String := " ".intercalate (l.map toString)
 
@@ -242,6 +271,14 @@ def handle (st : St) (cmd : String) (args : List Nat) : St × String :=
         | some t => "climb " ++ showETree t ++ (if t.conventional ot then " conv" else " NOTCONV")
         | none => "climb none")
     | none => (st, "bad-climb")
+  | "names" =>
+    match (do let a ← rdList (rdList rd); let b ← rdList (rdList rd); pure (a, b) : Rd _).run args with
+    | some ((a, b), _) => ({ st with ntNames := a, tNames := b }, "ok")
+    | none => (st, "bad-names")
+  | "pgcjson" =>
+    match st.T with
+    | some T => (st, "pgc " ++ pgcJson T st.ntNames st.tNames)
+    | none => (st, "no-table")
   | "actenv" =>
     match rdActEnv.run args with
     | some (e, _) => ({ st with env := e }, "ok")
